@@ -344,6 +344,48 @@ func ruleZeroSumSign(w *World, r *RuleResult) {
 			}
 		}
 	}
+	// minus(x) is subtract(0, x): 0 − (+0) is −0 under RoundFloor, so Context.Neg must consult the mode for zeros
+	if g := w.fn("(*Context).Neg"); g != nil {
+		k2 := "(*Context).Neg | sign of a zero result under RoundFloor"
+		di := destArgIndex(w, g)
+		ok := false
+		for _, st := range storesIn(g) {
+			fa, isFA := st.Addr.(*ssa.FieldAddr)
+			if !isFA || fa.X != ssa.Value(g.Params[di]) || w.exprOf(g, st.Addr).Name != "Negative" {
+				continue
+			}
+			floorG, zeroG := false, false
+			for _, gd := range guardsAt(st.Block()) {
+				if !gd.Val {
+					continue
+				}
+				if bo, isB := gd.Cond.(*ssa.BinOp); isB && bo.Op == token.EQL {
+					l, rr := w.exprOf(g, bo.X).String(), w.exprOf(g, bo.Y).String()
+					if (strings.HasSuffix(l, ".Rounding") && rr == floor) || (strings.HasSuffix(rr, ".Rounding") && l == floor) {
+						floorG = true
+					}
+				}
+				if c, isC := gd.Cond.(*ssa.Call); isC && w.calleeName(c) == "(*Decimal).IsZero" {
+					zeroG = true
+				}
+			}
+			// the stored sign is the complement of the operand's sign
+			if u, isU := st.Val.(*ssa.UnOp); isU && u.Op == token.NOT && floorG && zeroG {
+				for l := range w.valueAndControlLeaves(g, u.X) {
+					if strings.HasSuffix(l, ".Negative") {
+						ok = true
+					}
+				}
+			}
+		}
+		if ok {
+			r.ok(k2, w.pos(g.Pos()), "for a zero result under RoundFloor d.Negative = !x.Negative (0 − (+0) = −0, 0 − (−0) = +0)", true)
+		} else {
+			r.bad(k2, w.pos(g.Pos()), "Neg does not consult RoundFloor for a zero result: Neg(+0) under RoundFloor must be −0, as Sub(0, 0) is")
+		}
+	} else {
+		r.anchorMissing("(*Context).Neg")
+	}
 	switch {
 	case found && good:
 		r.ok(key, w.pos(f.Pos()), "on the Coeff.Sign()==0 edge d.Negative = (c.Rounding == RoundFloor)", true)
